@@ -31,6 +31,11 @@ def eMulFuel (a d : F) : Nat → Nat → F × F → F × F → F × F
 /-- `k·P`. -/
 def eMul (a d : F) (k : Nat) (p : F × F) : F × F := eMulFuel a d (k.log2 + 1) k p eZero
 
+/-- The affine double-and-add schedule, most significant bit first, from accumulator `acc`:
+the value `Σ bits·P` is computed as `acc ← 2·acc (+ P)`. -/
+def eMulBits (a d : F) (bits : List Bool) (p acc : F × F) : F × F :=
+  bits.foldl (fun acc b => let dd := eAdd a d acc acc; if b then eAdd a d dd p else dd) acc
+
 def eSum (a d : F) (ps : List (F × F)) : F × F := ps.foldl (eAdd a d) eZero
 
 end
